@@ -17,6 +17,8 @@ import (
 	"github.com/tencent/goom/zzverif/corpus/fn"
 	"github.com/tencent/goom/zzverif/corpus/ifc"
 	"github.com/tencent/goom/zzverif/corpus/sig"
+	pbv1 "github.com/tencent/goom/zzverif/corpus/v1/pb"
+	pbv2 "github.com/tencent/goom/zzverif/corpus/v2/pb"
 	"github.com/tencent/goom/zzverif/corpus/vars"
 )
 
@@ -237,6 +239,34 @@ func TestVerifRejectScenarios(t *testing.T) {
 		scen{"matches-few-variadic", func(b *mocker.Builder) {
 			chained(b, b.Func(sig.V2).Return(9), func(w *mocker.When) { w.Matches(arg.Pair{Args: []interface{}{1}, Return: 1}) })
 		}, allOrig, nil, nil},
+		// a result of the wrong size for a function whose TWIN (same-named package, same-named result type of another size) was
+		// stubbed correctly just before: anything remembered per printed type must not let the wrong value through
+		scen{"ret-size-after-twin", func(b *mocker.Builder) {
+			tb := mocker.Create()
+			tb.Func(pbv1.Load).Return(pbv1.Rec{ID: 5})
+			_ = pbv1.Load()
+			tb.Reset()
+			b.Func(pbv2.Load).Return(pbv1.Rec{ID: 7})
+		}, func() string {
+			if r := pbv2.Load(); r.ID != -1 || r.Name != "orig" {
+				return fmt.Sprintf("mocked(%+v)", r)
+			}
+			if r := pbv1.Load(); r.ID != -1 {
+				return fmt.Sprintf("twin mocked(%+v)", r)
+			}
+			return "orig"
+		}, nil, nil},
+		scen{"returns-size-after-twin", func(b *mocker.Builder) {
+			tb := mocker.Create()
+			tb.Func(pbv1.Load).Returns(pbv1.Rec{ID: 5}, pbv1.Rec{ID: 6})
+			tb.Reset()
+			b.Func(pbv2.Load).Returns(pbv1.Rec{ID: 7}, pbv1.Rec{ID: 8})
+		}, func() string {
+			if r := pbv2.Load(); r.ID != -1 || r.Name != "orig" {
+				return fmt.Sprintf("mocked(%+v)", r)
+			}
+			return "orig"
+		}, nil, nil},
 		scen{"nil-func-target", func(b *mocker.Builder) { b.Func(nil).Return(1) }, allOrig, nil, nil},
 		scen{"var-apply-non-func", func(b *mocker.Builder) { b.Var(&vars.SV[0]).Apply(5) }, allOrig, nil, nil},
 		scen{"var-apply-two-results", func(b *mocker.Builder) { b.Var(&vars.SV[0]).Apply(func() (int, int) { return 1, 2 }) }, allOrig, nil, nil})
